@@ -772,8 +772,16 @@ func (fr *Frame) instr(st *State, b *ssa.BasicBlock, in ssa.Instruction) (bool, 
 		}
 		fs, err1 := vc.tt.SortOf(x.X.Type())
 		ts, err2 := vc.tt.SortOf(x.Type())
-		if err1 != nil || err2 != nil || fs != ts {
-			return false, havocValue(x, "ChangeType across sorts")
+		if err1 != nil || err2 != nil {
+			return false, havocValue(x, "ChangeType with unsupported type")
+		}
+		if fs != ts {
+			c, ok := vc.convertStruct(a, x.X.Type(), x.Type())
+			if !ok {
+				return false, havocValue(x, "ChangeType across sorts")
+			}
+			def(x, c)
+			break
 		}
 		def(x, a)
 	case *ssa.ChangeInterface:
@@ -938,6 +946,48 @@ func (fr *Frame) instr(st *State, b *ssa.BasicBlock, in ssa.Instruction) (bool, 
 		vc.havocAll(st)
 	}
 	return false, nil
+}
+
+// convertStruct re-wraps a struct value of one named type as another named type with the same
+// underlying struct (Go's T2(v) for identical underlying types).
+func (vc *VC) convertStruct(a Term, from, to types.Type) (Term, bool) {
+	fu, ok1 := from.Underlying().(*types.Struct)
+	tu, ok2 := to.Underlying().(*types.Struct)
+	if !ok1 || !ok2 || fu.NumFields() != tu.NumFields() {
+		return Term{}, false
+	}
+	if _, o := vc.tt.isOpaque(from); o {
+		return Term{}, false
+	}
+	if _, o := vc.tt.isOpaque(to); o {
+		return Term{}, false
+	}
+	fs, err1 := vc.tt.SortOf(from)
+	ts, err2 := vc.tt.SortOf(to)
+	if err1 != nil || err2 != nil {
+		return Term{}, false
+	}
+	var args []Term
+	for i := 0; i < fu.NumFields(); i++ {
+		ffs, err1 := vc.tt.SortOf(fu.Field(i).Type())
+		tfs, err2 := vc.tt.SortOf(tu.Field(i).Type())
+		if err1 != nil || err2 != nil {
+			return Term{}, false
+		}
+		fv := App(ffs, structFieldAccessor(fs, i), a)
+		if ffs != tfs {
+			c, ok := vc.convertStruct(fv, fu.Field(i).Type(), tu.Field(i).Type())
+			if !ok {
+				return Term{}, false
+			}
+			fv = c
+		}
+		args = append(args, fv)
+	}
+	if len(args) == 0 {
+		return Term{"mk!" + string(ts), ts}, true
+	}
+	return App(ts, "mk!"+string(ts), args...), true
 }
 
 // derivedAddr: addresses computed from a checked base (or fresh) need no second nil check.
